@@ -75,7 +75,8 @@ let show_replies (r : rline list) =
   String.concat "," (List.map (fun (c, more) -> string_of_int (int_of_z c) ^ (if more then "-" else "")) r)
 
 let ip = str_of_raw "127.0.0.1"
-let domain = str_of_raw "inbucket"
+(* the HELO domain of the trace headers: the default of config.SMTP.Domain, regenerated from the source (Gen/ConfigPins.v) *)
+let domain = smtp_domain_default
 
 (* mailbox message cap of the case (store field "file:2"), 0 = none *)
 let cap_of_case = ref 0
